@@ -24,7 +24,7 @@ SrcKinds == {"local", "kernel", "ebgp", "ibgp", "ibgpc", "rs", "confed"}      \*
 \* Neither was learned from a BGP peer, so neither is "reflected", and no MED was "received".
 Originated(k) == k \in {"local", "kernel"}
 DstRoles == {"Ebgp", "Ibgp", "IbgpRrClient", "RsClient", "ConfedEbgp"}
-AspShapes == {"empty", "seq2", "seq255", "set2", "cseq2_seq2", "cseq2"}
+AspShapes == {"absent", "empty", "seq2", "seq255", "set2", "cseq2_seq2", "cseq2"}   \* absent: no AS_PATH attribute at all
 Attrs == {"LP", "MED", "OID", "CL", "AIGP", "UT", "UN"}   \* UT/UN: unknown optional transitive / non-transitive
 
 \* export policy of the receiving neighbour: none, or one statement that always applies and sets the next hop, sets the
@@ -39,6 +39,7 @@ Meaningful(x) ==
   /\ (Originated(x.src) => ~x.same /\ ~x.llgr)                \* locally originated: no peer, never stale
   /\ (x.src = "confed" \/ x.dst = "ConfedEbgp" => x.confed)    \* confed roles need a confederation
   /\ (x.same => ~Originated(x.src))
+  /\ (x.asp = "absent" => Originated(x.src))                   \* a learned route without AS_PATH never gets this far (C05)
   /\ (x.pol # "none" => x.has \in PolHasSets)
 
 IbgpLearned(k) == k \in {"ibgp", "ibgpc"}
@@ -54,6 +55,7 @@ Suppressed(x) ==
 \* shapes as sequences of [t, n]
 Shape(a) ==
   CASE a = "empty"      -> <<>>
+    [] a = "absent"     -> <<>>
     [] a = "seq2"       -> << [t |-> "SEQ", n |-> 2] >>
     [] a = "seq255"     -> << [t |-> "SEQ", n |-> 255] >>
     [] a = "set2"       -> << [t |-> "SET", n |-> 2] >>
